@@ -31,6 +31,13 @@ def char_scenarios(rng, quick):
     # ... and one-character recipes "k required characters out of N" right at the threshold 0.0984468 (tight band)
     for k, N in ((5, 51), (10, 102), (96, 976), (49, 499), (98, 995), (99, 1005), (10, 101), (2, 21), (1, 10)):
         out.append(sc(dict(len=1, allowChars=[0x4E00 + i for i in range(k, N)], requireSets=[[0x4E00 + i for i in range(k)]]), paths=3, tag="band-tight"))
+    # other attempt budgets under the default limit 1e-9: the refusal threshold follows the budget in force AT THE CALL
+    # (p* = 0.984 for 5 attempts, 0.339 for 50, 0.0575 for 350, 0.0103 for 2000): one recipe on either side of each
+    for mt, (ka, na), (kr, nr) in ((2000, (2, 100), (1, 200)), (5, (99, 100), (9, 10)), (50, (1, 2), (1, 4)), (350, (1, 10), (1, 25)), (199, (11, 100), (8, 100)),
+                                   (201, (11, 100), (8, 100))):
+        for k, N in ((ka, na), (kr, nr)):
+            out.append(sc(dict(len=1, allowChars=[0x4E00 + i for i in range(k, N)], requireSets=[[0x4E00 + i for i in range(k)]]), paths=3, mt=mt, tag="band-other-budget"))
+            out.append(sc(dict(len=3, allowChars=[0x4E00 + i for i in range(k, 3 * N)], requireSets=[[0x4E00 + i for i in range(k)]]), paths=3, mt=mt, tag="band-other-budget"))
     # overlapping required sets with real classes (were refused/NaN before the count was repaired)
     for L in (1, 2, 4, 8, 20):
         out.append(sc(dict(len=L, allow=3, require=4, requireSets=[o("357")]), tag="overlap"))
